@@ -5,6 +5,8 @@ cd "$(dirname "$0")"
 export CARGO_NET_OFFLINE=true
 mkdir -p work/locks evidence replays
 python3 lib/setup_targets.py > work/setup_targets.txt || exit 1
+# generated model parts are regenerated from /repo's current sources before anything is built
+python3 lib/run_translators.py
 lean_targets=$(sed -n 1p work/setup_targets.txt)
 bins=$(sed -n 2p work/setup_targets.txt)
 ( cd lean && lake build $lean_targets ) || { echo "setup: lean build failed"; exit 1; }
